@@ -231,6 +231,7 @@ def setup():
     core.deduplicate = lambda value, deduplication_cache: value
     ENVS['sqlite'] = _make('sqlite')
     ENVS['postgres'] = _make('postgres')
+    ENVS['composite'] = _make_composite()
 
 
 def _reset(e, keep_sql_cache=False):
@@ -323,7 +324,7 @@ def _same(x, y):
 
 
 # ---------------------------------------------------------------------------------------------- scenario
-def _core(R, W, L, N, C, optimistic=True, for_update=False, provider='sqlite', lf=1.5, nf=2.5, keep_sql_cache=False):
+def _core(R, W, L, N, C, optimistic=True, for_update=False, provider='sqlite', lf=1.5, nf=2.5, keep_sql_cache=False, gvia=0, gpre=0):
     from pony.orm import db_session
     from pony.orm.core import OptimisticCheckError, UnrepeatableReadError
     e = ENVS[provider]
@@ -342,7 +343,8 @@ def _core(R, W, L, N, C, optimistic=True, for_update=False, provider='sqlite', l
         table, cols = select_columns(sql)
         if table == E._table_:
             st['loads'] += 1
-            if st['loads'] == 1:
+            if st['loads'] == 1 or (gvia and ('WHERE "%s" = ' % col['g']) in sql):
+                # (gvia: the collection G[..].items is loaded - the same row again, now found through its "g" column)
                 return [tuple(loaded[c] for c in cols)], [(c,) for c in cols], -1
             # find_updated_attributes() after a failed check; its result only feeds the error message ("was deleted")
             return [], [(c,) for c in cols], -1
@@ -385,7 +387,22 @@ def _core(R, W, L, N, C, optimistic=True, for_update=False, provider='sqlite', l
             if R[2]: obj.x
             if R[3]: obj.v
             if R[4]: obj.n
-            if R[5]: obj.g
+            if R[5] and not gvia: obj.g
+            if gvia:
+                # obj.g becomes known through the other side of the relationship: obj is found among G[LOADED_G].items.
+                # gpre: how the collection got loaded before that (0 not at all; 1 len(); 2 load(); 3 a bool test) - loading alone does not
+                # show the program which objects are inside, looking at the items does
+                grp = G[LOADED_G]
+                if gpre == 1: len(grp.items)
+                elif gpre == 2: grp.items.load()
+                elif gpre == 3: bool(grp.items)
+                if R[5]:
+                    if gvia == 1:
+                        for it in grp.items: pass
+                    elif gvia == 2: grp.items.copy()
+                    elif gvia == 3: obj in grp.items
+                    elif gvia == 4: list(grp.items)
+                    else: grp.items == {obj}
             if W[0]: newval['a'] = na; obj.a = na
             if W[1]: newval['f'] = nf; obj.f = nf
             if W[2]: newval['x'] = nx; obj.x = nx
@@ -665,6 +682,16 @@ def upd_pessimistic(R: B6, W: B6, L: LT, N: NT, C: CT) -> bool:
     return _core(R, W, L, N, C, optimistic=False)
 
 
+def upd_collection(r_g: bool, W: B2, gvia: int, gpre: int, L: LT, N: NT, C: CT) -> bool:
+    """
+    pre: 1 <= gvia <= 5 and 0 <= gpre <= 3
+    pre: _pre((False, False, False, False, False, r_g), W, L, N, C, True) and L[3] and not L[5] and not N[3] and not N[5]
+    post: _
+    """
+    # the session reads obj.g by finding obj in the collection of the other side; W: (a, n) are assigned
+    return _core((False, False, False, False, False, r_g), (W[0], False, False, False, W[1], False), L, N, C, gvia=gvia, gpre=gpre)
+
+
 def upd_pg(R: B6, W: B6, L: LT, N: NT, C: CT) -> bool:
     """
     pre: _pre(R, W, L, N, C, True) and _only(R, 'ang') and _only(W, 'ang') and not N[3] and not N[5] and not L[5]
@@ -811,6 +838,152 @@ def _twice(R, W1, W2, r2_a, lock, L, N, C):
     return ok(not why)
 
 
+# ---------------------------------------------------------------------------------------------- composite columns
+def _make_composite():
+    """an attribute that spans several columns (reference to a composite primary key, one part of it a float): every column of a read
+    attribute is part of what the session read"""
+    from engine import env
+    from pony.orm import PrimaryKey, Required, Optional, Set
+    e = Env()
+    e.db = env.mock_database('sqlite')
+    e.pool = Pool()
+    e.db.provider.pool = e.pool
+    e.con = e.pool.con
+    db = e.db
+
+    class H(db.Entity):
+        p = Required(int)
+        q = Required(int)
+        r = Required(str)
+        PrimaryKey(p, q, r)
+        items = Set('M')
+
+    class M(db.Entity):
+        id = PrimaryKey(int)
+        val = Required(int)
+        h = Optional(H)
+    e.H, e.M = H, M
+    db.generate_mapping(check_tables=False)
+    return e
+
+
+def upd_composite(r_h: bool, w_val: bool, w_h: bool, lh_null: bool, nv: int, C: Tuple[bool, bool, int, int, bool]) -> bool:
+    """
+    pre: LO <= nv <= HI
+    post: _
+    """
+    from pony.orm import db_session
+    from pony.orm.core import OptimisticCheckError, UnrepeatableReadError
+    e = ENVS['composite']
+    NPATH[0] += 1
+    from pony.orm import core
+    core.local.db2cache.clear(); core.local.db_session = None; core.local.db_context_counter = 0
+    e.db._dblocal.stats = {None: core.QueryStat(None)}
+    lock = getattr(e.db.provider, 'transaction_lock', None)
+    if lock is not None and lock.locked():
+        try: lock.release()
+        except Exception: pass
+    e.M._update_sql_cache_.clear()
+    H, M, con = e.H, e.M, e.con
+    hcols = list(M.h.columns)
+    exists, ch_null, cp, cq, cr_same = C
+    lh = None if lh_null else (3, 4, 'k')
+    loaded = {'id': 1, 'val': 5}
+    for c, v in zip(hcols, lh or (None, None, None)): loaded[c] = v
+    # current row, per column: (is NULL, value); the str part is 'k' or another text
+    cur = {'id': (False, 1), hcols[0]: (ch_null, cp), hcols[1]: (ch_null, cq), hcols[2]: (ch_null, 'k' if cr_same else 'j')}
+    st = {'updates': [], 'loads': 0, 'matched': None}
+    why = []
+
+    def responder(sql, args):
+        table, cols = select_columns(sql)
+        if table == M._table_:
+            st['loads'] += 1
+            if st['loads'] == 1: return [tuple(loaded[c] for c in cols)], [(c,) for c in cols], -1
+            return [], [(c,) for c in cols], -1
+        if table == H._table_:
+            return [tuple(args)[:3]], [('p',), ('q',), ('r',)], -1
+        if sql.startswith('UPDATE'):
+            try: tab, sets, terms = bind(sql, args)
+            except Unparsed as ex:
+                why.append('unparsed UPDATE: %s' % ex); st['updates'].append(None)
+                return [], [], 0
+            m = exists
+            for t in terms:
+                c = t[1]
+                if c not in cur:
+                    why.append('term on unexpected column %s' % c); m = False
+                    continue
+                cnull, cval = cur[c]
+                if t[0] == 'IS_NULL': m = m & cnull
+                elif t[2] is None: m = False
+                else: m = m & ((cnull == False) & (cval == t[2]))
+            matched = True if m else False
+            st['matched'] = matched
+            st['updates'].append((tab, sets, terms))
+            return [], [], (1 if matched else 0)
+        return None
+    con.reset(responder)
+    exc = None
+    done = False
+    try:
+        with db_session:
+            h_new = H[7, 8, 'n'] if w_h else None
+            obj = M.get(id=1)
+            if r_h: obj.h
+            if w_val: obj.val = nv
+            if w_h: obj.h = h_new
+            done = True
+    except Exception as ex:
+        exc = ex
+    LAST.update(exc=exc, log=list(con.log), st=st)
+    if not done and not st['updates']:
+        LAST['why'] = ['session body failed: %s' % _exc(exc)]
+        return ok(False)
+    if not (w_val or w_h):
+        if st['updates']: why.append('UPDATE without a modified attribute')
+        if exc is not None: why.append('unexpected %s' % _exc(exc))
+        LAST['why'] = why
+        return ok(not why)
+    if len(st['updates']) != 1 or st['updates'][0] is None:
+        LAST['why'] = why + ['expected exactly one well-formed UPDATE, got %r' % (st['updates'],)]
+        return ok(False)
+    tab, sets, terms = st['updates'][0]
+    matched = st['matched']
+    want_set = (['val'] if w_val else []) + (hcols if w_h else [])
+    if sorted(c for c, _ in sets) != sorted(want_set): why.append('SET columns %r' % (sets,))
+    if not terms or terms[0] != ('EQ', 'id', 1): why.append('first WHERE term is not the primary key')
+    crit = terms[1:]
+    required = hcols if (r_h and not w_h) else []
+    for c in required:
+        ts = [t for t in crit if t[1] == c]
+        if not ts: why.append('no optimistic term for column %s of the attribute that was read' % c); continue
+        for t in ts:
+            if loaded[c] is None:
+                if t[0] != 'IS_NULL': why.append('%s was read as NULL but is compared with =' % c)
+            elif t[0] != 'EQ' or t[2] is None or not _same(t[2], loaded[c]): why.append('%s is not compared with the value read' % c)
+    if matched:
+        good = True
+        for c in required:
+            cnull, cval = cur[c]
+            if loaded[c] is None: good = good & cnull
+            else: good = good & ((cnull == False) & (cval == loaded[c]))
+        if not good: why.append('row matched although a column of the read attribute changed (lost update)')
+        if exc is not None: why.append('update applied but the session raised %s' % _exc(exc))
+        if con.commits != 1: why.append('commit() called %d times' % con.commits)
+    else:
+        same = exists
+        for c in hcols:
+            cnull, cval = cur[c]
+            if loaded[c] is None: same = same & cnull
+            else: same = same & ((cnull == False) & (cval == loaded[c]))
+        if same: why.append('unchanged row did not match')
+        if not isinstance(exc, (OptimisticCheckError, UnrepeatableReadError)): why.append('no row updated but the session raised %s' % _exc(exc))
+        if con.commits != 0: why.append('commit() called after a failed optimistic check')
+    LAST['why'] = why
+    return ok(not why)
+
+
 # ---------------------------------------------------------------------------------------------- K3: tracking step
 def track_step(i: int, kind: int, r_i: bool, w_i: bool, rest_r: bool, rest_w: bool, val: int) -> bool:
     """
@@ -885,7 +1058,7 @@ def track_step(i: int, kind: int, r_i: bool, w_i: bool, rest_r: bool, rest_w: bo
 
 
 MAIN = ['upd_w%02d' % k for k in range(16)]
-HARNESSES = MAIN + ['upd_nulls', 'upd_volatile', 'upd_float', 'upd_for_update', 'upd_pessimistic', 'upd_pg', 'upd_twice', 'upd_twice_locked', 'track_step']
+HARNESSES = MAIN + ['upd_nulls', 'upd_volatile', 'upd_float', 'upd_for_update', 'upd_pessimistic', 'upd_pg', 'upd_collection', 'upd_composite', 'upd_twice', 'upd_twice_locked', 'track_step']
 
 
 def explain(fn, **kw):
